@@ -263,7 +263,7 @@ DEADLINES = "yamux stream deadlines: SetDeadline/SetReadDeadline/SetWriteDeadlin
 prop("C06", ["prims.go", "c06.go"],
      [run("routing", "harnessC06", ["dispensed", "routed"], dpor=True,
           quick={"max_reversals": 2, "bound": "two Dispense calls, a further call on the first dispensed client at a symbolic instant 6-9 s later (any deadline Dial left on the stream has passed), + two symbolic distinct IDs accepted on the host and dialled from the plugin within a symbolic gap < 5 s in either order, data written on the dialled end 6 s after that; all schedules with <= 2 reversals"},
-          thorough={"max_reversals": 3, "max_wall_s": 3000, "bound": "as quick with <= 3 reversals (about 262 000 schedules, 15 M solver queries, 12-15 min on 16 cores when measured)"}),
+          thorough={"max_reversals": 3, "max_wall_s": 3000, "bound": "as quick with <= 3 reversals (about 281 000 schedules, 24 M solver queries, 15-26 min on 16 cores when measured)"}),
       run("nextid", "harnessC20nextid", ["ids-distinct"], dpor=True, files=["prims.go", "c20.go"], quick={"max_reversals": 2, "params": {"as": 6}, "bound": "two goroutines each taking two IDs from both broker kinds, counter value symbolic (wrap-around included); all schedules with <= 2 reversals"}),
       run("mux-history", "harnessC09a", ["accept-matched", "dial-inside-window", "probe-done"], files=["prims.go", "c09a.go"],
           quick={"bound": "C09's MuxBroker history run read for C06 (canonical schedule): with another dial pending on a different ID, an Accept(a) and a dial for a that arrives within four seconds of it are matched"}),
